@@ -109,6 +109,29 @@ for m in msgs:
 return (len(msgs) == 0) == ref_ok(PROPS[key], vals)
 '''
 
+PAIRS = '''
+# list-of-pairs keywords (PATTERN, POINTS): a fault inside one pair sits two list levels below the keyword
+key = KEYS[sel]
+cands = [1, 2.5, "x", None, True, [1]]
+bad = cands[w]
+pairs = [[1, 2], [3, 4], [5, 6]]
+k = int(k)
+if arity:
+    pairs[k] = [1, 2, 3] if w % 2 else [1]
+else:
+    pairs[k] = [bad, 2] if first else [1, bad]
+d = base()
+d[key] = pairs
+d["__position__"] = {"line": 3, "column": 4, key: {"line": 5, "column": 6}}
+msgs = V.validate(d, schema_name=TYPE)
+if names(msgs) != expected(d):
+    return False
+for m in msgs:
+    if m["line"] != 5 or m["column"] != 6:
+        return False
+return (len(msgs) == 0) == ref_ok(PROPS[key], pairs)
+'''
+
 ENUM = '''
 key, words = KEYS[sel]
 cands = []
@@ -309,6 +332,13 @@ def obligations(tier, seed):
                                        f"(sel == 0) & (k >= {max(0, n0 - 1)}) & (k <= {n0 + 1}) & (a >= 0) & (a < {len(cands)})", NUMLIST)
             obs.append(Ob(name=f"C07-LIST/{t}.{lk}", source=src, pct=400, timeout=500,
                           meta={"desc": f"{t}.{lk}: number list, symbolic length n-1..n+1, one symbolic element at the first or last index", "functions": ["Validator.validate", "Validator.create_message"]}))
+        pkeys = [k for k, p in S.expanded(t)["properties"].items() if k in ("pattern", "points") and t in ("style", "symbol")]
+        for pk in pkeys:
+            src = pre0([pk]) + harness("h", [("sel", "int"), ("k", "int"), ("w", "int"), ("first", "bool"), ("arity", "bool")],
+                                       "(sel == 0) & (k >= 0) & (k < 3) & (w >= 0) & (w < 6)", PAIRS)
+            obs.append(Ob(name=f"C07-PAIRS/{t}.{pk}", source=src, pct=600, timeout=700,
+                          meta={"desc": f"{t}.{pk}: list of pairs with a wrong-typed / wrong-arity pair at a symbolic index: verdict, message name and position",
+                                "functions": ["Validator.validate", "Validator.create_message"]}))
         if enums:
             ek = [(k, w) for k, w in enums.items()]
             if quick:
